@@ -314,6 +314,7 @@ func judgeVerify(st *stats, c *jCase) {
 	}
 	fam := algFamily(alg)
 	ref := refVerify(k, sig, rrs)
+	countKeyShape(st, "", k, sig, rrs)
 
 	prims := []struct {
 		name string
@@ -740,6 +741,7 @@ func judgeRRSIG(st *stats, c *jCase) {
 			if k == nil {
 				continue
 			}
+			countKeyShape(st, "rrsig_", k, s, rrs)
 			o := refVerify(k, s, rrs)
 			if !o.known {
 				unknown = true
